@@ -804,6 +804,7 @@ HELPER_GETTERS = set()   # names of private generic helpers that are `storage().
 OPAQUE_CONSTS = {}      # (Enum, Variant) of an enum kept as an opaque identifier -> (number, type)
 
 
+LET_TYPES = {}      # (function, variable) -> type of an un-annotated `let` (declared per mode)
 STRUCT_ALIAS = {}   # Rust struct name -> Lean structure name, where a storage key variant carries the struct's name
 
 
@@ -1175,6 +1176,8 @@ class Gen:
     def pure(self, e, env):
         e = self.strip(e)
         if e[0] == "num":
+            if e[2] in NATTY:
+                return (f"({e[1]} : Nat)", e[2])      # `0u32`: an unsigned literal
             return (f"({e[1]} : Int)", e[2] or "int")
         if e[0] == "var" and e[1] == "None":
             return ("none", "Option<?>")
@@ -1221,6 +1224,14 @@ class Gen:
         if e[0] == "call" and e[1] == ("path", ["Vec", "from_iter"]) and len(e[2]) == 2 and self.strip(e[2][0]) in (("var", "e"), ("var", "_e")):
             # `Vec::from_iter(e, v.iter().filter(|x| pure predicate))`
             it_ = self.strip(e[2][1])
+            if it_[0] == "mcall" and it_[2] in ("keys", "values") and not it_[3]:
+                # `Vec::from_iter(e, map.keys())`: the keys in the map's order
+                try:
+                    l_, t_ = self.pure(it_, env)
+                    if t_.startswith("Vec<"):
+                        return (l_, t_)
+                except Unsupported:
+                    pass
             if it_[0] == "mcall" and it_[2] == "filter" and len(it_[3]) == 1:
                 src_ = self.strip(it_[1])
                 cl_ = self.strip(it_[3][0])
@@ -2329,6 +2340,9 @@ class Gen:
             if i == len(stmts):
                 return k_end(env)
             s = stmts[i]
+            if s[0] == "let" and len(s) > 4 and s[4] is None and isinstance(s[1], str) and (self.cur_fn, s[1]) in LET_TYPES:
+                # a declared type for an un-annotated `let` whose type Rust infers from later uses
+                s = s[:4] + (LET_TYPES[(self.cur_fn, s[1])],) + tuple(s[5:])
             if s[0] == "let" and self.strip(s[3])[0] == "call" and self.strip(s[3])[1][0] == "var" \
                     and (self.cur_ns, self.strip(s[3])[1][1]) in OUTS:
                 # `let r = f(&mut lv, ..);` — `f` returns its result and the final values of its `&mut` parameters,
@@ -3604,12 +3618,13 @@ STORE_CRW = {"RulesW": {"Meta": (["u32"], "MetaS"), "Signers": (["u32"], "Vec<Si
 READS_CRW = {"RulesW": {"ledger_sequence": "u32",
                         "compute_fingerprint": ("fn", ["Val", "Vec<Signer>", "Vec<Address>"], "Bytes32"),
                         "current_contract_address": "Address",
-                        "PolicyClient_try_uninstall": ("tryfn", ["Address", "ContextRule", "Address"], "()")}}
+                        "PolicyClient_try_uninstall": ("tryfn", ["Address", "ContextRule", "Address"], "()"),
+                        "PolicyClient_install": ("fn", ["Address", "Val", "ContextRule", "Address"], "()")}}
 FILES_CRW = [("RulesW", "packages/accounts/src/smart_account/mod.rs", []),
              ("RulesW", "packages/accounts/src/smart_account/storage.rs",
               ["get_context_rule", "validate_signers_and_policies", "validate_and_set_fingerprint",
                "remove_fingerprint", "update_context_rule_name", "update_context_rule_valid_until", "add_signer", "remove_signer",
-               "remove_context_rule"])]
+               "remove_context_rule", "get_context_rules_count", "add_context_rule"])]
 STORE_CLM = {"Claims": {"Claim": (["Bytes32"], "IdClaim"), "ClaimsByTopic": (["u32"], "Vec<Bytes32>")}}
 STRUCTS_CLM = {"IdClaim": [("topic", "u32"), ("scheme", "u32"), ("issuer", "Address"), ("signature", "Bytes"), ("data", "Bytes"), ("uri", "Val")]}
 READS_CLM = {"Claims": {"current_contract_address": "Address",
@@ -4375,6 +4390,7 @@ def main():
             HELPER_GETTERS.add("get_persistent_entry")
             OPAQUE_CONSTS[("ContextRuleType", "Default")] = (0, "Val")
             STRUCT_ALIAS["Meta"] = "MetaS"
+            LET_TYPES[("add_context_rule", "unique_signers")] = "Vec<Signer>"
             txt = translate(repo, FILES_CRW, reads=READS_CRW, structs=STRUCTS_CR, store=STORE_CRW,
                             tymaps={"packages/accounts/src/smart_account/storage.rs": {"ContextRuleType": "Val", "String": "Val", "Meta": "MetaS", "BytesN<32>": "Bytes32"}},
                             rename_types={"ContextRule": "RulesW.ContextRule", "MetaS": "RulesW.MetaS"})
